@@ -3,15 +3,15 @@
 import importlib, json, os, sys
 sys.path.insert(0, "/verif")
 LEVEL_TEXT = {
- "C01": "Bounded symbolic model checking of the real cond-run code over the fake kernel: holds for every graph / listing order / kind vector / flags / --jobs / completion order / exit status inside the stated bounds (N<=3 quick, N<=4 thorough).",
+ "C01": "Bounded symbolic model checking of the real cond-run code over the fake kernel: holds for every graph / listing order / kind vector / flags / --jobs / completion order / exit status inside the stated bounds (N<=3 quick, N<=4 thorough), plus one inductive step of the executor from an arbitrary valid state (dependents enqueued iff all dependencies finished; any graph size).",
  "C02": "Bounded exploration of the real planner+executor with the caching rule as oracle (N<=3 quick, N=4 thorough); the at-least dimension is covered by C05's space.",
  "C03": "Bounded symbolic model checking: exit statuses, signals, launch failures, batched SIGCHLD and --stop-early are solver variables; report and exit status compared with the oracle.",
- "C04": "Bounded symbolic model checking of the slot gate / slot stack: --jobs symbolic, every completion order, one failure, ambient COND_SLOT bit; N<=3 plus a 5-task fan-in family.",
+ "C04": "Bounded symbolic model checking of the slot gate / slot stack (--jobs symbolic, every completion order, one failure, ambient COND_SLOT bit; N<=3 plus a 5-task fan-in family) and an inductive invariant of the executor checked on one real launch step and one real wait step from an arbitrary valid state (<=4 slots, any graph size, any run length).",
  "C05": "Symbolic commit DAG (parents as solver Booleans, ancestry/distance as z3 terms), documented rule as z3 terms, 'pc => observed == documented' discharged per path; emulator validated against /usr/bin/git.",
  "C06": "Symbolic exit status in-process plus kill-point enumeration (k a solver variable over every executed line of the anchored modules) for run/archive/gc/restore sequences; invariant checked through a fresh sqlite connection.",
  "C07": "Bounded exploration of the environment contract at every spawn (graphs N<=3, package layouts, cache bits, decorations) with conductor.lib evaluated inside the task environment.",
  "C08": "Generator on unbounded z3 integers (no monotonic clock assumed) + histories of <=3 invocations with a symbolic clock second, incl. restores of old/future archives.",
- "C09": "Adversarial kernel: early exits at kernel-call boundaries, deferred/batched SIGCHLD, an unrelated child; the real Popen/_cleanup/__del__ code runs on top; <=2 schedule deviations quick, <=3 thorough.",
+ "C09": "Adversarial kernel: early exits at kernel-call boundaries, deferred/batched SIGCHLD (a signal that arrives before read() is entered does not interrupt it; wake-up descriptor modelled), an unrelated child, job control; the real Popen/_cleanup/__del__ code runs on top; <=2 schedule deviations quick, <=3 thorough; stub contract compared with real processes.",
  "C10": "Exploration of chunk schedules (lengths around the tee buffer and pipe buffer, both streams, interleaving) through the real tee threads; byte values are not symbolic.",
  "C11": "Exploration of archive/restore over generated projects (nested packages, leading-hyphen names, closure shapes, version sets, symlink trees) with real tar/sqlite; selection rule as oracle.",
  "C12": "Fault enumeration: 6 corruption kinds x prior states x kill at every executed line of the anchored modules; all-or-nothing checked through a fresh sqlite connection.",
